@@ -1572,3 +1572,18 @@ V("r5-c01-folded-kinds", "C01", "silent", LG, _LG_BLOCKS, _lg_folded(), what="on
 V("r5-c01-folded-kinds-do-first", "C01", "fire", LG, _LG_BLOCKS, _lg_folded(order=("do", "noise", "shift")), rule="CASES", what="folded loop, do applied first: shift lands on top of do")
 V("r5-c01-folded-kinds-shift-assigns", "C01", "fire", LG, _LG_BLOCKS, _lg_folded(shift_op="="), rule="CASES", what="folded loop, shift replaces instead of adding")
 V("r5-c01-folded-kinds-noise-cuts", "C01", "fire", LG, _LG_BLOCKS, _lg_folded(cut="noise"), rule="CASES", what="folded loop, the noise intervention cuts the edges instead of the do intervention")
+
+# ---- transitive closure by repeated squaring (written by three seed agents, each one round short)
+_TC_OLD = "    for i in range(len(A)):\n        desc = list(descendants(i, A) - {i})\n        closure[i, desc] = 1\n"
+
+
+def _tc_squaring(rounds):
+    return "    p = len(A)\n    reach = A != 0\n    rounds = %s\n    for _ in range(rounds):\n        reach = np.logical_or(reach, reach @ reach)\n    closure[reach] = 1\n" % rounds
+
+
+V("r10-c15-closure-squaring", "C15", "silent", UT, _TC_OLD, _tc_squaring("int(np.ceil(np.log2(p - 1))) if p > 1 else 0"), what="closure by repeated squaring, ceil(log2(p - 1)) rounds")
+V("r10-c15-closure-squaring-bitlength", "C15", "silent", UT, _TC_OLD, _tc_squaring("(p - 1).bit_length() if p > 1 else 0"), what="closure by repeated squaring, (p - 1).bit_length() rounds")
+V("r10-c15-closure-squaring-p-rounds", "C15", "silent", UT, _TC_OLD, _tc_squaring("p"), what="closure by repeated squaring, p rounds (more than needed)")
+V("r10-c15-closure-squaring-floor", "C15", "fire", UT, _TC_OLD, _tc_squaring("int(np.log2(p)) if p > 1 else 0"), rule="CLOSURE.rounds", what="floor(log2 p) rounds: one short for p = 6, 7, 10-15, ...")
+V("r10-c15-closure-squaring-unguarded", "C15", "fire", UT, _TC_OLD, _tc_squaring("int(np.ceil(np.log2(p - 1)))"), rule="CLOSURE.rounds", what="log2(0) for a single node")
+V("r10-c15-closure-squaring-half", "C15", "fire", UT, _TC_OLD, _tc_squaring("int(np.ceil(np.log2(p))) - 1 if p > 1 else 0"), rule="CLOSURE.rounds", what="one round dropped")
